@@ -160,7 +160,13 @@ def gen_items(rng, depth=0):
                 txt += '\u00a0a'
             items.append(['t', txt, str(Fraction(len(txt) * rng.choice([1, 7, 10]), rng.choice([1, 1, 2, 3])))])
         elif r < 0.8:
-            items.append(['a', str(Fraction(rng.randint(0, 40), rng.choice([1, 2])))])
+            w = Fraction(rng.randint(0, 40), rng.choice([1, 2]))
+            # boxes laid out inside the atomic box (one line of text boxes): [offset of the line, [widths of its boxes]]
+            desc = []
+            if rng.random() < 0.6:
+                nk = rng.choice([1, 2, 3])
+                desc = [str(w / 8), [str(w / (2 * nk)) for _ in range(nk)]]
+            items.append(['a', str(w), desc])
         else:
             items.append(['i', gen_items(rng, depth + 1)])
     return items
@@ -186,6 +192,19 @@ def nspaces(t):
     return t.count(' ') + t.count('\u00a0')
 
 
+def atomic_inside(x, desc):
+    """Coq terms of the boxes inside an atomic box at x: a line box holding text boxes without spaces"""
+    if not desc:
+        return ''
+    lx = x + Fraction(desc[0])
+    ws = [Fraction(v) for v in desc[1]]
+    kids, xx = [], lx
+    for v in ws:
+        kids.append('(T 0%%nat %s %s 0)' % (qlit(xx), qlit(v)))
+        xx += v
+    return '(I false %s %s [%s])' % (qlit(lx), qlit(sum(ws)), '; '.join(kids))
+
+
 def ibox_in(items, x, rtl):
     """Coq ibox terms of the stub boxes before the call, laid side by side from x"""
     out = []
@@ -194,7 +213,7 @@ def ibox_in(items, x, rtl):
             out.append('(T %d%%nat %s %s 0)' % (nspaces(it[1]), qlit(x), qlit(Fraction(it[2]))))
             x += Fraction(it[2])
         elif it[0] == 'a':
-            out.append('(A %s %s)' % (qlit(x), qlit(Fraction(it[1]))))
+            out.append('(A %s %s [%s])' % (qlit(x), qlit(Fraction(it[1])), atomic_inside(x, it[2])))
             x += Fraction(it[1])
         else:
             w = items_width(it[1])
@@ -209,7 +228,12 @@ def ibox_out(items, dumps, rtl):
         if it[0] == 't':
             out.append('(T %d%%nat %s %s %s)' % (nspaces(it[1]), qlit(Fraction(d[0])), qlit(Fraction(d[1])), qlit(Fraction(d[2]))))
         elif it[0] == 'a':
-            out.append('(A %s %s)' % (qlit(Fraction(d[0])), qlit(Fraction(d[1]))))
+            inside = ''
+            if d[2]:
+                ln = d[2][0]
+                inside = '(I false %s %s [%s])' % (qlit(Fraction(ln[0])), qlit(Fraction(ln[1])), '; '.join(
+                    '(T 0%%nat %s %s 0)' % (qlit(Fraction(k[0])), qlit(Fraction(k[1]))) for k in ln[2]))
+            out.append('(A %s %s [%s])' % (qlit(Fraction(d[0])), qlit(Fraction(d[1])), inside))
         else:
             out.append('(I %s %s %s [%s])' % (cbool(rtl), qlit(Fraction(d[0])), qlit(Fraction(d[1])),
                                               '; '.join(ibox_out(it[1], d[2], rtl))))
@@ -268,8 +292,19 @@ def gen_inline(rng, cfg, depth, budget):
             html += '<span style="%s">%s</span>' % (';'.join(st), h)
             toks += t
         elif r < cfg['p_span'] + cfg['p_ib']:
-            html += '<span style="display:inline-block;width:%dpx;height:%dpx"></span>' % (
-                rng.choice([5, 10, 20, 40, 100]), rng.choice([1, 5, 10, 30]))
+            if rng.random() < cfg.get('p_ibt', 0):
+                # an atomic inline-level box with descendants: inline-block / inline-table / inline-flex holding text
+                disp = rng.choice(['inline-block', 'inline-block', 'inline-table', 'inline-flex'])
+                inner = ' '.join(''.join(rng.choice(LET) for _ in range(rng.choice([1, 2, 3]))) for _ in range(rng.choice([1, 2, 3])))
+                if disp == 'inline-flex':
+                    inner = '<span>%s</span>' % inner
+                html += '<span style="display:%s;padding:0 %dpx;border-left:%dpx solid%s">%s</span>' % (
+                    disp, rng.choice([0, 2, 5]), rng.choice([0, 1, 3]),
+                    rng.choice(['', '', ';width:%dpx' % rng.choice([20, 50, 80])]), inner)
+                cfg['has_ibt'] = True
+            else:
+                html += '<span style="display:inline-block;width:%dpx;height:%dpx"></span>' % (
+                    rng.choice([5, 10, 20, 40, 100]), rng.choice([1, 5, 10, 30]))
             toks.append(('o',))
             if depth >= 1:
                 cfg['has_ib_in_span'] = True
@@ -293,7 +328,7 @@ def gen_render_case(rng, idx):
     ta = rng.choice(['left', 'left', 'right', 'center', 'justify', 'start', 'end'])
     rtl = rng.random() < 0.1
     cfg = dict(pre=ws in ('pre', 'pre-wrap', 'pre-line'), p_span=rng.choice([0, 0, 0.15, 0.3]),
-               p_ib=rng.choice([0, 0, 0.1]), leftdeco=rng.random() < 0.3, rightdeco=rng.random() < 0.6, mixed=rng.random() < 0.15, shy=rng.random() < 0.12,
+               p_ib=rng.choice([0, 0, 0.1, 0.15]), p_ibt=rng.choice([0, 0.5, 1]), leftdeco=rng.random() < 0.3, rightdeco=rng.random() < 0.6, mixed=rng.random() < 0.15, shy=rng.random() < 0.12,
                lens=rng.choice([[1, 2, 3], [1, 2, 3, 5, 8], [3, 5, 8, 13], [1, 30], [1, 2, 3, 5, 8, 13, 21, 30]]))
     nwords = rng.choice([1, 2, 3, 5, 8, 13, 21, 40, 80, 150, 400])
     if cfg['p_span']:
@@ -321,7 +356,7 @@ def gen_render_case(rng, idx):
                 mixed=cfg['mixed'], shy=cfg['shy'], spans=cfg['p_span'] > 0,
                 leftdeco=cfg.get('has_deco_left', False), rightdeco=cfg.get('has_deco_right', False),
                 nested=cfg.get('has_nested', False), ib_in_span=cfg.get('has_ib_in_span', False),
-                right_max=cfg.get('right_max', 0))
+                right_max=cfg.get('right_max', 0), ibt=cfg.get('has_ibt', False))
 
 
 def source_text(toks, ws):
@@ -579,6 +614,175 @@ def judge_render(case, paras):
 
 
 
+def judge_nested(case, blocks):
+    """every block container that holds lines and is not the paragraph itself (inline-blocks, cells of inline-tables,
+    items of inline-flex boxes put on the paragraph's lines): its lines lie inside its content box and the children of
+    each line are side by side and add up to the line width.  When a line of the paragraph is justified or aligned,
+    the atomic box is moved: its descendants must have moved with it."""
+    bad = []
+    for bi, B in enumerate(blocks):
+        if B['main']:
+            continue
+        left, right = B['x'], B['x'] + B['w']
+        for i, ln in enumerate(B['lines']):
+            lo = left + (min(B['indent'], 0) if i == 0 else 0)
+            if ln['w'] <= B['w'] + EPS and (ln['x'] < lo - EPS or ln['x'] + ln['w'] > right + EPS):
+                bad.append(('descendants-move-with-their-box',
+                            'block %d (%s) line %d x=%s w=%s outside its content box %s..%s' % (
+                                bi, B['cls'], i, ln['x'], ln['w'], left, right)))
+            if B['direction'] == 'ltr':
+                x = ln['x'] + (B['indent'] if i == 0 else 0)
+                top = [it for it in ln['items'] if it['depth'] == 0 and it['kind'] not in ('float', 'abs')]
+                for it in top:
+                    if abs(it['x'] - x) > EPS:
+                        bad.append(('descendants-move-with-their-box',
+                                    'block %d (%s) line %d: child at %s, expected %s' % (bi, B['cls'], i, it['x'], x)))
+                        break
+                    x += mbw(it)
+                else:
+                    if top and abs(x - (ln['x'] + ln['w'])) > EPS:
+                        bad.append(('descendants-move-with-their-box',
+                                    'block %d (%s) line %d: children end at %s, line box at %s' % (
+                                        bi, B['cls'], i, x, ln['x'] + ln['w'])))
+    return bad
+
+
+# ----------------------------------------------------------------------------- lines next to stacked floats
+def gen_float_case(rng, idx):
+    """1..3 floats (left/right, clear) whose heights are exact multiples of the line height or one pixel off, before
+    the text of the block (block-level floats or floated spans at the very start of the paragraph), sometimes one
+    more float met in the middle of the text"""
+    fs = rng.choice([5, 10, 10, 16])
+    lh = rng.choice([fs, fs, 2 * fs, fs + 3])
+    em = rng.choice([6, 8, 10, 12, 15, 20, 30])
+    width = fs * em + rng.choice([0, 0, 0, 1, -1])
+    ta = rng.choice(['left', 'left', 'left', 'start', 'right', 'justify'])
+    inline = rng.random() < 0.3
+    floats = []
+    for k in range(rng.choice([1, 2, 2, 3])):
+        side = rng.choice(['left', 'left', 'right'])
+        fw = rng.choice([fs, 2 * fs, 3 * fs, 5 * fs, int(width / 2), int(width * 0.8)])
+        fh = max(1, lh * rng.choice([1, 1, 2, 3]) + rng.choice([0, 0, 0, 1, -1]))
+        clear = rng.choice(['none', 'none', side, 'both'])
+        floats.append(dict(side=side, w=fw, h=fh, clear=clear,
+                           mt=rng.choice([0, 0, 0, lh, 1]), mb=rng.choice([0, 0, 0, lh])))
+    words = gen_words(rng, nmax=rng.choice([6, 12, 25, 40]))
+    words = [w[:rng.choice([1, 2, 3, 5, 8])] for w in words]
+    tag = 'span' if inline else 'div'
+    fl_html = ''.join('<%s style="float:%s;clear:%s;width:%dpx;height:%dpx;margin-top:%dpx;margin-bottom:%dpx"></%s>' % (
+        tag, f['side'], f['clear'], f['w'], f['h'] - f['mt'] - f['mb'] if f['h'] - f['mt'] - f['mb'] > 0 else f['h'],
+        f['mt'], f['mb'], tag) for f in floats)
+    mid = None
+    text = ' '.join(words)
+    if rng.random() < 0.1 and len(words) > 3:
+        j = rng.randint(1, len(words) - 1)
+        mid = dict(side=rng.choice(['left', 'right']), w=rng.choice([fs, 3 * fs]), h=rng.choice([lh, 2 * lh + 1]), at=j)
+        text = ' '.join(words[:j]) + ' <span style="float:%s;width:%dpx;height:%dpx"></span>' % (mid['side'], mid['w'], mid['h']) \
+            + ' '.join(words[j:])
+    style = 'width:%spx;font-size:%dpx;line-height:%dpx;text-align:%s' % (width, fs, lh, ta)
+    if inline:
+        body = '<p id="p%d" style="margin:0;%s">%s%s</p>' % (idx, style, fl_html, text)
+    else:
+        body = '<div id="p%d" style="%s">%s%s</div>' % (idx, style, fl_html, text)
+    html = ('<style>@page{size:3000px 200000px;margin:0}body{margin:0;font-family:weasyprint}</style>' + body)
+    return dict(html=html, words=words, fs=fs, lh=lh, width=width, ta=ta, inline=inline, nfloats=len(floats), mid=mid)
+
+
+def free_interval(B, floats, top, bottom):
+    """what the floats leave of the content box between y=top and y=bottom: a float narrows the interval iff its margin
+    box shares some vertical extent with [top, bottom) - CSS 2.1 9.5.1: touching edges do not count"""
+    left, right = B['x'], B['x'] + B['w']
+    for f in floats:
+        if f['y'] < bottom - EPS and f['y'] + f['mh'] > top + EPS:
+            if f['side'] == 'left':
+                left = max(left, f['x'] + f['mw'])
+            else:
+                right = min(right, f['x'])
+    return left, right
+
+
+def judge_floats(case, blocks):
+    bad = []
+    mains = [b for b in blocks if b['main']]
+    if len(mains) != 1:
+        return [('paragraph-rendered-once', 'line 0 %d containers' % len(mains))]
+    B = mains[0]
+    floats, lines, fs = B['floats'], B['lines'], case['fs']
+    got = ' '.join(ln['text'].strip(' ') for ln in lines if ln['text'].strip(' '))
+    if got != ' '.join(case['words']):
+        return [('lines-cover-text', 'line 0 texts %r' % got[:80])]
+    lines = [ln for ln in lines if ln['text'].strip(' ') or ln['w'] > 0]
+    for i, ln in enumerate(lines):
+        top, bottom = ln['y'], ln['y'] + ln['h']
+        left, right = free_interval(B, floats, top, bottom)
+        avail = right - left
+        text = ln['text'].strip(' ')
+        last = i == len(lines) - 1
+        if ln['w'] > avail + EPS and ' ' in text:
+            bad.append(('float-fit', 'line %d %r x=%s w=%s free %s..%s' % (i, text, ln['x'], ln['w'], left, right)))
+        elif ln['w'] <= avail + EPS:
+            ta = {'start': 'left'}.get(case['ta'], case['ta'])
+            if ta == 'justify' and (last or ' ' not in text):
+                ta = 'left'
+            if ta == 'left' and abs(ln['x'] - left) > EPS:
+                bad.append(('float-start-x', 'line %d %r x=%s w=%s free %s..%s' % (i, text, ln['x'], ln['w'], left, right)))
+            if ta == 'right' and abs(ln['x'] + ln['w'] - right) > EPS:
+                bad.append(('float-start-x', 'line %d %r x=%s w=%s free %s..%s' % (i, text, ln['x'], ln['w'], left, right)))
+            if ta == 'justify' and (abs(ln['x'] - left) > EPS or abs(ln['w'] - avail) > EPS):
+                bad.append(('float-start-x', 'line %d %r x=%s w=%s free %s..%s' % (i, text, ln['x'], ln['w'], left, right)))
+        if not last:
+            nxt = lines[i + 1]
+            word = nxt['text'].strip(' ').split(' ')[0]
+            natural = len(text) * fs
+            if case['ta'] != 'justify' and natural + (1 + len(word)) * fs <= avail - EPS:
+                bad.append(('float-greedy', 'line %d %r (%s of %s..%s): %r would fit' % (i, text, natural, left, right, word)))
+            if nxt['y'] < bottom - EPS:
+                bad.append(('float-lines-stack', 'line %d ends at %s, next starts at %s' % (i, bottom, nxt['y'])))
+            elif nxt['y'] > bottom + EPS:
+                # the next line was pushed down: its first word must not fit right below this line
+                l2, r2 = free_interval(B, floats, bottom, bottom + nxt['h'])
+                if len(word) * fs <= r2 - l2 + EPS:
+                    bad.append(('float-needless-gap', 'line %d ends at %s, next at %s although %r fits in %s..%s' % (
+                        i, bottom, nxt['y'], word, l2, r2)))
+    return bad
+
+
+def classify_floats(case, blocks, clause, detail):
+    """open findings about floats and lines: the test looks at the offending line"""
+    import re
+    mains = [b for b in blocks if b['main']]
+    m = re.match(r'line (\d+)', detail)
+    if len(mains) != 1 or not m:
+        return None
+    B = mains[0]
+    lines = [ln for ln in B['lines'] if ln['text'].strip(' ') or ln['w'] > 0]
+    i = int(m.group(1))
+    if i >= len(lines):
+        return None
+    ln = lines[i]
+    mm = re.search(r'x=([-0-9.]+) w=([-0-9.]+) free ([-0-9.]+)\.\.([-0-9.]+)', detail)
+    # F135: the line fits beside the floats only without its trailing space and is re-aligned in the width below them
+    if clause == 'float-start-x' and mm and case['ta'] in ('right', 'justify'):
+        x, w, lo, hi = (float(g) for g in mm.groups())
+        over = max(x + w - hi, lo - x)
+        if w <= hi - lo + EPS < w + case['fs'] + 2 * EPS and over <= case['width'] + EPS:
+            return 'float-line-realigned-with-width-including-trailing-space'
+    # floats that are inline children met at the start of line 0: one of them was placed below the top of that line
+    # (clearance, no room beside the previous one) but still inside its vertical extent; the line is not shortened
+    if case['inline'] and i == 0 and clause in ('float-start-x', 'float-fit', 'float-greedy'):
+        if any(ln['y'] + EPS < f['y'] < ln['y'] + ln['h'] - EPS for f in B['floats'][:case['nfloats']]):
+            return 'inline-float-placed-below-line-top-still-overlaps-line'
+    # F50 / F51: a float met in the middle of a line (not at its start): the text after it is not shifted, and the
+    # float is re-aligned to the top of that line; only the lines sharing vertical extent with that float are concerned
+    if case['mid'] is not None:
+        known = [f for f in B['floats']]
+        midf = known[case['nfloats']:] if len(known) > case['nfloats'] else []
+        for f in midf:
+            if f['y'] < ln['y'] + ln['h'] + EPS and f['y'] + f['mh'] > ln['y'] - ln['h'] - EPS:
+                return 'inline-float-text-not-shifted' if f['side'] == 'left' else 'inline-float-realigned-to-line-top'
+    return None
+
+
 def classify_render(case, paras, clause, detail):
     """signature of the open finding whose mechanism applies to the offending line (None: unexplained).
     Each test looks at the features of the offending line(s) that make the mechanism apply, not at the clause alone."""
@@ -680,6 +884,9 @@ def check(run):
     t3 = time.time()
     stream_render(run, rng, 6000 if thorough else 900)
     t4 = time.time()
+    stream_floats(run, rng, 5000 if thorough else 900)
+    t5 = time.time()
+    run.stream_info('float-lines', wall_s=round(t5 - t4, 1))
     run.stream_info('pango-G', wall_s=round(t1 - t0, 1))
     run.stream_info('sfl-direct', wall_s=round(t2 - t1, 1))
     run.stream_info('align-direct', wall_s=round(t3 - t2, 1))
@@ -815,6 +1022,9 @@ def stream_align(run, rng, n):
             run.fail('text_align offset outside [0, available - width]', {'stream': 'align-direct', 'case': c, 'impl_output': o})
         if m & 4:
             run.fail('justified line does not fill the available width', {'stream': 'align-direct', 'case': c, 'impl_output': o})
+        if m & 8:
+            run.fail('after text_align / justification a box inside an atomic inline-level box is outside that box',
+                     {'stream': 'align-direct', 'case': c, 'impl_output': o})
     run.count('align-direct', len(kept), [(c['align'], c['align_last'], c['dir'], c['ws'], c['last'],
                                             Fraction(c['avail']) > items_width(c['items']), len(c['items'])) for c, _ in kept],
               samples=[{'case': kept[0][0], 'impl': kept[0][1]}])
@@ -841,10 +1051,11 @@ def stream_render(run, rng, n):
                      {'stream': 'render-lines', 'html': c['html'], 'exc': o}, signature=sig)
             continue
         nlines += sum(len(p['lines']) for p in o)
-        bad = judge_render(c, o)
+        paras = [b for b in o if b['main']]
+        bad = judge_render(c, paras) + judge_nested(c, o)
         seen = set()
         for clause, detail in bad:
-            sig = classify_render(c, o, clause, detail)
+            sig = classify_render(c, paras, clause, detail)
             if (clause, sig) in seen:
                 continue
             seen.add((clause, sig))
@@ -864,6 +1075,39 @@ def stream_render(run, rng, n):
                          'stacking y+h; distinct = style combination')
 
 
+def stream_floats(run, rng, n):
+    cases = [gen_float_case(rng, i) for i in range(n)]
+    outs = common.run_impl('impl_c09', 'render_lines', [{'html': c['html']} for c in cases], limit=60, chunksize=8)
+    known, nlines, kinds = {}, 0, set()
+    for c, (st, o) in zip(cases, outs):
+        if st != 'ok':
+            run.fail('render %s' % (st if st == 'timeout' else 'raised %s at %s' % (o['type'], o['site'])),
+                     {'stream': 'float-lines', 'html': c['html'], 'exc': o},
+                     signature='timeout' if st == 'timeout' else 'crash:%s' % (o['site'],))
+            continue
+        nlines += sum(len(b['lines']) for b in o if b['main'])
+        seen = set()
+        for clause, detail in judge_floats(c, o):
+            sig = classify_floats(c, o, clause, detail)
+            if (clause, sig) in seen:
+                continue
+            seen.add((clause, sig))
+            if sig is not None:
+                known[sig] = known.get(sig, 0) + 1
+            run.fail('line next to floats violates clause %s: %s' % (clause, detail),
+                     {'stream': 'float-lines', 'html': c['html'], 'case': {k: v for k, v in c.items() if k != 'html'},
+                      'clause': clause, 'detail': detail}, signature=sig)
+        kinds.add((c['nfloats'], c['ta'], c['inline'], c['mid'] is not None, c['lh'] == c['fs'], c['width']))
+    run.count('float-lines', len(cases), kinds, samples=[cases[0]['html'][:600]])
+    run.stream_info('float-lines', lines=nlines, known_mechanisms_hit=known, judged_in='Python (judge_floats)',
+                    rule='1..3 left/right floats with clear none/side/both, heights = 1..3 line heights and one pixel '
+                         'above/below, vertical margins, as block-level boxes before the text or as floated spans at the '
+                         'start of the paragraph (30%), one more float in the middle of the text (10%); per line: the free '
+                         'interval is recomputed from the float geometry of the rendered page with half-open boundaries '
+                         '(CSS 2.1 9.5.1): the line starts at its edge, fits in it, is greedy in it, lines stack without '
+                         'overlap and a line is only pushed down when its first word does not fit right below')
+
+
 def replay(data):
     d = data.get('data', {})
     stream = d.get('stream')
@@ -874,9 +1118,18 @@ def replay(data):
             return 1
         case = dict(d['case'], html=d['html'])
         case['toks'] = [tuple(t) for t in case['toks']]
-        bad = judge_render(case, o)
+        bad = judge_render(case, [b for b in o if b['main']]) + judge_nested(case, o)
         print('replay:', bad[:5])
         return 1 if any(b[0] == d.get('clause') for b in bad) or bad else 0
+    if stream == 'float-lines':
+        (st, o), = common.run_impl('impl_c09', 'render_lines', [{'html': d['html']}], limit=60)
+        if st != 'ok':
+            print('replay: render', st, o and o.get('type'))
+            return 1
+        case = dict(d['case'], html=d['html'])
+        bad = judge_floats(case, o)
+        print('replay:', bad[:5])
+        return 1 if bad else 0
     if stream == 'sfl-direct':
         c = d['case']
         (st, o), = common.run_impl('impl_c09', 'sfl', [c])
